@@ -69,6 +69,10 @@ def gen_plan(seed, tier):
         if not toks:
             toks.append("N%d" % r.range(0, 2))
         runs.append(toks)
+    if r.chance(1, 3):   # the runs of the history are made from two working directories (two projects built at the same time by the same user)
+        for t in runs:
+            if r.chance(1, 2):
+                t.insert(0, "D1")
     faults = []
     if r.chance(1, 3):
         for _ in range(r.range(1, 2)):
@@ -85,7 +89,7 @@ def gen_plan(seed, tier):
 
 
 def describe(plan):
-    s = "sequential_prefix=%d runs:" % plan["params"][0]
+    s = "sequential_prefix=%d (D1 = run made from a second working directory) runs:" % plan["params"][0]
     for i, t in enumerate(plan["runs"]):
         s += " r%d[%s]" % (i, " ".join(t))
     for f in plan["faults"]:
@@ -143,6 +147,7 @@ def run_history(plan, seed, decisions, launcher):
     # named semaphores: a name designates an object until it is unlinked; processes keep the object they opened
     objs = []             # values of the semaphore objects ever created
     names = {}            # name -> index in objs
+    alias = {}            # name -> "name#k" (trace)
     pobj = {}             # run index -> object opened by that process
     count = None          # value of the object currently designated by the name (None: no such name), for reports
     holders = set()       # processes between "guard constructed" and "guard destroyed" (markers)
@@ -329,7 +334,15 @@ def run_history(plan, seed, decisions, launcher):
                             bump("registry_accesses_announced")
                             if p.idx not in wholders:
                                 outside = (p.idx, m)
-                    trace.append("r%d %s%s" % (p.idx, req, "" if reply[:1] in (b"K", b"V") else " -> error"))
+                    treq = req
+                    if k in "OU" and len(req.split()) > 1:
+                        # the text of a name is not part of the property (and may legitimately depend on the environment of the run): the trace
+                        # records which name it is, in order of first appearance
+                        parts = req.split()
+                        alias.setdefault(parts[1], "name#%d" % len(alias))
+                        parts[1] = alias[parts[1]]
+                        treq = " ".join(parts)
+                    trace.append("r%d %s%s" % (p.idx, treq, "" if reply[:1] in (b"K", b"V") else " -> error"))
                     p.pending = None
                     p.sock.sendall(reply)
                     fetch(p)
@@ -342,6 +355,8 @@ def run_history(plan, seed, decisions, launcher):
                 bump("conservation_broken_steps")
             if len(objs) > 1:
                 bump("steps_with_several_semaphore_objects")
+            if len(alias) > 1:
+                bump("steps_with_several_semaphore_names")
             if outside is not None and violation is None:
                 what = {"REGOPENR": "opens src/targets.lst for reading", "REGOPENW": "opens (truncates) src/targets.lst for writing", "REGWRITE": "writes to src/targets.lst", "REGCLOSE": "closes (flushes) src/targets.lst"}.get(outside[1], outside[1])
                 violation = ("protected-file-accessed-outside-the-lock", "run %d %s while it does not hold the lock (holders of the semaphore at that instant: %s)" % (outside[0], what, sorted(wholders)))
@@ -361,6 +376,7 @@ def run_history(plan, seed, decisions, launcher):
                     pass
                 p.popen.wait()
                 p.sock.close()
+    clean_shm()
     h = hashlib.sha256("\n".join(trace).encode()).hexdigest()[:16]
     sh = hashlib.sha256(",".join(map(str, dec_out)).encode()).hexdigest()[:16]
     if max_conc >= 2:
@@ -371,10 +387,33 @@ def run_history(plan, seed, decisions, launcher):
             "ctr": ctr, "abs": sorted(abs_states), "decisions": dec_out, "trace": trace, "final_count": count}
 
 
+SHM_TOKEN = "vsim46-%07d-" % os.getpid()   # POSIX shared-memory objects opened by the runs are private to this simulator process and removed after every history
+
+
+def clean_shm():
+    import glob
+    for f in glob.glob("/dev/shm/" + SHM_TOKEN + "*"):
+        try:
+            os.unlink(f)
+        except OSError:
+            pass
+
+
+def split_dir(tokens):
+    """(directory index, remaining tokens): a leading D<k> token selects the working directory of the run"""
+    if tokens and tokens[0][:1] == "D" and tokens[0][1:].isdigit():
+        return int(tokens[0][1:]) % 2, tokens[1:]
+    return 0, tokens
+
+
 def drv_launcher(drv):
+    dirs = [os.path.join(BUILD, PID, "cwd%d" % k) for k in range(2)]
+    for d in dirs:
+        os.makedirs(d, exist_ok=True)
     def launch(i, tokens, cs):
-        env = {"VSIM_SEM_FD": str(cs.fileno()), "PATH": "/usr/bin:/bin"}
-        return subprocess.Popen([drv] + tokens, pass_fds=[cs.fileno()], env=env, stdin=subprocess.DEVNULL, stdout=subprocess.DEVNULL, stderr=subprocess.DEVNULL)
+        env = {"VSIM_SEM_FD": str(cs.fileno()), "PATH": "/usr/bin:/bin", "VSIM_SHM_TOKEN": SHM_TOKEN}
+        k, tokens = split_dir(tokens)
+        return subprocess.Popen([drv] + (tokens or ["N0"]), cwd=dirs[k], pass_fds=[cs.fileno()], env=env, stdin=subprocess.DEVNULL, stdout=subprocess.DEVNULL, stderr=subprocess.DEVNULL)
     return launch
 
 
@@ -394,9 +433,14 @@ def mfront_launcher(so, workdir):
     mf = os.path.join(TFEL_BUILD, "mfront/src/mfront")
     corpus = real_corpus()
     def launch(i, tokens, cs):
+        dk, tokens = split_dir(tokens)
+        cwd = workdir
+        if dk:
+            cwd = os.path.join(workdir, "other-project")
+            os.makedirs(cwd, exist_ok=True)
         k = int(tokens[0][1:]) % len(corpus) if tokens and tokens[0][1:].isdigit() else 0
         env = tfel_env()
-        env.update({"VSIM_SEM_FD": str(cs.fileno()), "LD_PRELOAD": so})
+        env.update({"VSIM_SEM_FD": str(cs.fileno()), "LD_PRELOAD": so, "VSIM_SHM_TOKEN": SHM_TOKEN})
         args = ["--interface=c", corpus[k]]
         if tokens and tokens[0].startswith("B"):   # failing invocations: they end in mfront's error / terminate paths
             bad = os.path.join(workdir, "invalid.mfront")
@@ -404,7 +448,7 @@ def mfront_launcher(so, workdir):
                 open(bad, "w").write("@DSL MaterialLaw;\n@Law Broken;\n@Output y;\n@Function{ y = ; \n")
             args = [["--no-such-option"], ["--interface=c", os.path.join(workdir, "does-not-exist.mfront")], ["--interface=c", bad],
                     ["--omake", "-G", "cmake", "--interface=cpptest", os.path.join(VERIF, "behaviours", "BoundedYoungModulus.mfront")]][k % 4]   # the last one fails in the generation stage (inside a lock-protected section)
-        return subprocess.Popen([mf] + args, cwd=workdir, pass_fds=[cs.fileno()], env=env, stdin=subprocess.DEVNULL, stdout=subprocess.DEVNULL, stderr=subprocess.DEVNULL)
+        return subprocess.Popen([mf] + args, cwd=cwd, pass_fds=[cs.fileno()], env=env, stdin=subprocess.DEVNULL, stdout=subprocess.DEVNULL, stderr=subprocess.DEVNULL)
     return launch
 
 
@@ -413,6 +457,10 @@ def gen_real_plan(seed):
     nruns = r.range(2, 5)
     seq = r.range(0, nruns - 1) if r.chance(2, 3) else 0
     runs = [["F%d" % r.range(0, 5)] if not r.chance(1, 5) else ["B%d" % r.range(0, 3)] for _ in range(nruns)]   # B: an invocation that fails (bad option, missing file, invalid file)
+    if r.chance(1, 3):
+        for t in runs:
+            if r.chance(1, 2):
+                t.insert(0, "D1")
     faults = [[r.range(0, nruns - 1), r.range(0, 6)]] if r.chance(1, 4) else []
     if r.chance(1, 4):
         faults.append([r.range(0, nruns - 1), r.range(1, 6), 1])
